@@ -19,8 +19,8 @@ ASSUMPTIONS = ['baselines are generated from a polynomial of degree <= the fitte
                'joint-shift clause skipped when the rotated baseline length is within 1e-6 of an integer (np.arange length flips on round-off)',
                'degenerate lines are only required not to raise and to give the configured height']
 N = {'quick': 1500, 'thorough': 100000}
-CLASSES = ['inside', 'inside', 'curved', 'curved', 'partly_outside', 'outside', 'steep', 'short', 'degenerate', 'line_cropper', 'many_points']
-REQUIRED = ['line_cropper_second_pass_lines', 'heights_as:float64_array', 'many_point_grids', 'long_lived_cropper_crops', 'crops', 'grids_checked', 'curved_grids', 'pixels_compared', 'general_path_crops', 'fast_path_crops', 'shift_compared', 'degenerate_checked', 'poly0_cubic_lines', 'line_cropper_lines']
+CLASSES = ['inside', 'inside', 'curved', 'curved', 'partly_outside', 'outside', 'steep', 'short', 'degenerate', 'line_cropper', 'many_points', 'reversed']
+REQUIRED = ['fallback_crops_after_the_caller_wrote_into_an_earlier_one', 'degenerate_lines_on_tiny_pages', 'line_cropper_second_pass_lines', 'heights_as:float64_array', 'many_point_grids', 'long_lived_cropper_crops', 'crops', 'grids_checked', 'curved_grids', 'pixels_compared', 'general_path_crops', 'fast_path_crops', 'shift_compared', 'degenerate_checked', 'poly0_cubic_lines', 'line_cropper_lines']
 # bounds (see DESIGN.md C10); measured maxima are reported in the evidence as observed_maxima
 B_CHORD = 0.05        # relative non-uniformity of the advance along the baseline row
 B_STEP = 0.02         # relative error of the mean advance vs (h_up+h_down)*scale/H (plus end effect 1/(W-1))
@@ -128,6 +128,13 @@ def gen(rng, i, ctx):
             case['heights'] = [0.0, 0.0]
         else:
             case['heights'] = [0.0, float(rng.uniform(2, 10))]
+        # a page (or strip) smaller than one line crop
+        if rng.random() < 0.4:
+            case['image_size'] = [[20, 900], [900, 20], [10, 10], [40, 31]][int(rng.integers(0, 4))]
+            case['baseline'] = [[5.0, 5.0]] if kind in ('single_point',) else ([[5.0, 5.0], [5.0, 5.0]] if kind == 'identical_points' else case['baseline'])
+    if cls == 'reversed':
+        # written from right to left (a page scanned upside down): the same band, walked from the first point to the last
+        case['baseline'] = case['baseline'][::-1]
     return case
 
 
@@ -164,7 +171,9 @@ def check(case, mon, ctx):
     pts = np.array(case['baseline'], dtype=np.float64)
     hh = heights_object(case)
     eng = ctx.ce.EngineLineCropper(line_height=H, poly=poly, scale=scale)
-    img = image(ctx, case['image'])
+    img = image(ctx, case['image']) if not case.get('image_size') else image(ctx, case['image'], *case['image_size'])
+    if case.get('image_size'):
+        mon.count('degenerate_lines_on_tiny_pages')
     if cls == 'line_cropper':
         return check_line_cropper(case, mon, ctx)
     old_eng = ctx.long_lived.setdefault((H, poly, scale), ctx.ce.EngineLineCropper(line_height=H, poly=poly, scale=scale))
@@ -196,6 +205,21 @@ def check(case, mon, ctx):
         mon.violation('configured-height', {'shape': list(crop.shape), 'H': H})
     if cls == 'degenerate':
         mon.count('degenerate_checked')
+        # the caller owns the crop it was given and may write into it; a later fallback crop of the same long-lived cropper is blank again
+        if crop.flags.writeable and crop_old is not None and crop_old.flags.writeable:
+            blank = crop.copy()
+            crop[...] = 77
+            crop_old[...] = 99
+            with contextlib.redirect_stdout(io.StringIO()):
+                try:
+                    later = old_eng.crop(img, pts, hh)
+                except BaseException as e:
+                    mon.violation('never-an-error', {'exception': repr(e)[:300], 'step': 'second fallback crop'})
+                    return
+            mon.count('fallback_crops_after_the_caller_wrote_into_an_earlier_one')
+            if later.shape != blank.shape or not np.array_equal(later, blank):
+                mon.violation('crop-independent-of-earlier-crops', {'note': 'the fallback crop of a degenerate line is not blank after the caller wrote into an earlier fallback crop',
+                              'shape': list(later.shape), 'values': np.unique(later)[:5]}, mechanism='fallback-crop-shared')
         return
     if len(pts) >= 3:
         mon.mark_nontrivial()
